@@ -280,7 +280,13 @@ func (cx *c10Ctx) inRange(r *rand.Rand) int {
 }
 
 func (cx *c10Ctx) outOfRange(r *rand.Rand) int {
-	return []int{-1, cx.in.N, cx.in.N + 1, 255, 256, 300, -200}[r.IntN(7)]
+	// incl. values that are out of range as ints but equal a valid index (the dealer, me, another
+	// participant) after narrowing to a byte
+	l := []int{-1, cx.in.N, cx.in.N + 1, 255, 256, 300, -200}
+	for i := 0; i < cx.in.N; i++ {
+		l = append(l, 256+i, -256+i, 65536+i)
+	}
+	return l[r.IntN(len(l))]
 }
 
 // symbols of the enumeration alphabet
